@@ -43,7 +43,7 @@ def baseRep (rep : String) : String :=
   else rep
 
 def detailAlgos := ["ins", "mkqs", "CE0", "CE2", "CE3", "CI2", "CI3"]
-def detailReps := ["ucp", "cucp", "str", "uptr", "suf"]
+def detailReps := ["ucp", "cucp", "str", "uptr", "suf", "scp", "sccp"]
 def apiReps := ["cp", "ucp", "ccp", "cucp", "vcp", "vucp", "vccp", "vcucp", "strp", "vstr"]
 
 def lookupConsts (rep : String) (wl : Bool) : Option Consts :=
